@@ -257,6 +257,8 @@ Proof.
   - unfold do_send. pose proof (Inv_send_staged _ (Inv_set_staged _ (staged (set_now s (now s + 1)) + 1) H0)).
     destruct (send_staged _) as [[s1 sent] i]. exact H1.
   - cbn [fst]. apply Inv_set_now; [exact H0|]. cbn [now set_now]. lia.
+  - exact H0.
+  - exact H0.
 Qed.
 
 Theorem Inv_reachable evs : Inv (final step init evs).
@@ -715,6 +717,8 @@ Proof.
     intros Hx. destruct (Hs Hx) as (k0 & Hc & Hi & Ha). exists k0. unfold age in Ha. cbn [now set_staged cur] in *.
     repeat split; [congruence|exact Hi|rewrite An; exact Ha].
   - intros [].
+  - intros [].
+  - intros [].
 Qed.
 
 (* what SendHandshakeInitiation does when it is called *)
@@ -838,6 +842,8 @@ Proof.
       intros Hc _. right. assert (n = k) by congruence. subst n. split; [congruence|reflexivity].
   - unfold do_send. pose proof (slots_send_staged (set_staged s (staged s + 1))) as (_ & A & _).
     destruct (send_staged _) as [[s1 sent] i]. cbn [fst] in *. rewrite A. auto.
+  - cbn. auto.
+  - cbn. auto.
   - cbn. auto.
 Qed.
 
@@ -1053,6 +1059,8 @@ Proof.
   - unfold do_send. pose proof (slots_send_staged (set_staged s (staged s + 1))) as Hs.
     destruct (send_staged _) as [[s1 sent] i]. cbn [fst] in *. eapply next_excl_same; [exact Hs|exact P0].
   - exact P0.
+  - exact P0.
+  - exact P0.
 Qed.
 
 Theorem next_excludes_previous evs : next (R evs) <> None -> prev (R evs) = None.
@@ -1070,4 +1078,28 @@ Proof.
   destruct (next (R evs)) as [n|].
   - rewrite H by discriminate. destruct (cur (R evs)); cbn; lia.
   - destruct (prev (R evs)), (cur (R evs)); cbn; lia.
+Qed.
+
+(* ---- messages that do not authenticate ----------------------------------------------------------- *)
+
+(* A forged or replayed transport message leaves everything but the clock unchanged and produces
+   nothing -- in particular it cannot confirm the key waiting in next. *)
+Theorem unauthentic_receive_inert evs sid :
+  let s := R evs in
+  step s (Forged sid) = (set_now s (now s + 1), out0) /\
+  step s (Replay sid) = (set_now s (now s + 1), out0).
+Proof. split; reflexivity. Qed.
+
+(* "confirmed" only ever refers to an authentic, accepted Recv: a history whose receive events under
+   x are all forged or replayed never confirms x. *)
+Lemma confirmed_needs_authentic evs x :
+  confirmed evs x -> In (Recv x) evs.
+Proof. intros (pre & post & -> & _). apply in_or_app. right. left. reflexivity. Qed.
+
+Corollary no_send_without_authentic_receive evs e x k :
+  In x (o_sent (snd (step (R evs) e))) -> cur (fst (step (R evs) e)) = Some k -> initiator k = false ->
+  In (Recv x) (evs ++ [e]).
+Proof.
+  intros Hx Hc Hi. destruct (no_send_under_unconfirmed evs e x Hx) as (k' & Hc' & Hid & _ & Hconf).
+  assert (k' = k) by congruence. subst k'. apply confirmed_needs_authentic, Hconf, Hi.
 Qed.
